@@ -1675,7 +1675,9 @@ def parameters_reader_rule(prog, res, rule='parameters-read'):
     idv = d2.get('dest') if d2 else None
     alt = w.take(('alt',))
     o = orient(alt, ('(%s < 0)' % idv, '(0 > %s)' % idv)) if alt is not None and idv is not None else None
-    if o is None:
+    if o is None and alt is not None and idv is not None and re.match(r'^\(%s (<=|>|>=|==|!=) 0\)$|^\(0 (<|<=|>=|==|!=) %s\)$' % (re.escape(idv), re.escape(idv)), alt[1]):
+        w.bad('dispatch', w.where(alt), 'records are dispatched on %s; the format says: negative id = group record, positive id = parameter record (id 0 is neither)' % alt[1])
+    elif o is None:
         w.bad('dispatch', w.where(alt), 'records must be dispatched on the sign of the id byte (negative = group), found %s' % describe(alt))
     else:
         th, el = io_only(o[0]), io_only(o[1])
@@ -1804,12 +1806,19 @@ def frame_reader_rule(prog, res, rule='frame-read'):
             pv = g.vertex_of.get(f.strip(pre['cond'], 'all')) or g.vertex_of.get(pre['id'])
             if sc and all(l == 'arg0._header.nbFrames()' and op in ('>', '!=') and r_ == '0' for l, op, r_ in others) and _IS.always_exits(f, pre['then']):
                 hoisted = True
+        wrong_op = len(body) == 1 and body[0][0] == 'alt' and re.match(r'^\(arg0\._header\._scaleFactor (<=|>|>=|==|!=) 0\)$', body[0][1])
         if hoisted:
             res.ok(rule, 'frame.float-format', f.loc(pre['id']), 'a file whose header scale is not negative is refused before any frame is decoded (test made once, when there are frames)',
                    function=f.sig, expr='frame.float-format')
+        elif wrong_op:
+            res.viol(rule, 'frame.float-format', f.loc(body[0][4]), 'frames are decoded as REAL when %s; the format marks REAL storage by a negative scale only' % body[0][1], function=f.sig, expr='frame.float-format')
+            body = io_only(body[0][2])
         elif pre is not None:
             res.undecided(rule, 'frame.float-format', f.loc(pre['id']), 'the float-format marker is tested outside the frame loop (%s): not a form the rule tabulates [shape not read by the rule]' % R.render(pre['cond']),
                           function=f.sig, expr='frame.float-format')
+        elif len(body) == 1 and body[0][0] == 'alt' and re.match(r'^\(arg0\._header\._scaleFactor (<=|>|>=|==|!=) 0\)$', body[0][1]):
+            res.viol(rule, 'frame.float-format', f.loc(body[0][4]), 'frames are decoded as REAL when %s; the format marks REAL storage by a negative scale only' % body[0][1], function=f.sig, expr='frame.float-format')
+            body = io_only(body[0][2])
         elif mentions:
             res.undecided(rule, 'frame.float-format', f.loc(fl[4]), 'the float-format marker is consulted in a form the rule does not read [shape not read by the rule]', function=f.sig, expr='frame.float-format')
         else:
@@ -3017,3 +3026,29 @@ def reader_refusals_rule(prog, res, rule='accepts-format-range'):
                         elif not refused:
                             res.ok(rule, inst, f.loc(i['id']), 'guard %s %s %d excludes no specified value' % (fld['name'], op, k), function=f.sig, expr='refuse:%s@%d' % (fld['name'], i['id']), nontrivial=False)
     res.ok(rule, 'reader refusals screened against the format ranges', 'src/', '%d guard(s) on fields with a specified range' % n, function='', expr='screen', nontrivial=False)
+
+
+def default_scale_rule(prog, res, rule='float-format-default'):
+    """the library stores REAL data only: every Header constructor that does not read the header from a
+    file must leave the scale word negative (the float-format marker), else the files it saves declare
+    integer storage"""
+    n = 0
+    for f in prog.repo_funcs():
+        if f.cls != 'ezc3d::Header' or f.kind != 'ctor' or f.implicit or f.rec.get('copy') or f.rec.get('move'):
+            continue
+        vals = [f.nodes[f.strip(rhs, 'all')] for g_, nid, rhs in _c18.field_writes(prog, 'ezc3d::Header', '_scaleFactor') if g_ is f and rhs is not None]
+        for v in vals:
+            n += 1
+            cv = v.get('cv') if 'cv' in v else (str(v.get('v')) if v['k'] in ('IntegerLiteral', 'FloatingLiteral') else None)
+            r_ = Renderer(f).render(v['id'])
+            try:
+                num = float(cv) if cv is not None else float(r_.replace('(float)', '').replace('-(', '-').replace(')', ''))
+            except (TypeError, ValueError):
+                res.undecided(rule, 'Header constructor: scale word', f.loc(), 'initial scale %s is not a constant the rule reads [shape not read by the rule]' % r_, function=f.sig, expr='scale-default')
+                continue
+            if num < 0:
+                res.ok(rule, 'Header constructor: scale word', f.loc(), 'initialised to %s (negative: REAL storage)' % r_, function=f.sig, expr='scale-default@%d' % v['id'])
+            else:
+                res.viol(rule, 'Header constructor: scale word', f.loc(), 'the scale word is initialised to %s: a non-negative scale declares integer storage, but the data section is always written as REAL' % r_,
+                         function=f.sig, expr='scale-default')
+    res.minimum('initialisations of the header scale word', n, 1)
